@@ -16,6 +16,8 @@ for d in sorted(glob.glob(os.path.join(V, 'seeded', 'C*-*'))):
         if mo and mo.group(1) != mo.group(2):
             how += '; %s of %s obligations still discharge' % (mo.group(1), mo.group(2))
     caught = 'caught' if q.get('caught') else ('MISSED' if q else 'not run')
+    if m.get('obsolete'):
+        caught, how = 'no longer a breaking change', m['obsolete']
     summ = ' '.join(str(m.get('summary', '')).split())
     if len(summ) > 230:
         summ = summ[:227] + '...'
